@@ -24,9 +24,14 @@ scalar** and a branch on which two ranks disagree blocks the run.
   active ranks, the master's consolidated chunk is a contiguous range of global rows in global order, and the two
   ways the code addresses a slave's rows (`shift`, `domain[i] - d0`) agree.
 
-**What is certificate / test (harness/h_mpi_solve.cpp, real MPI, double).**  The hypothesis `Setup.pd` (the
-distributed preconditioner refines a serial one) is NOT proved for `mpi::amg`: PMIS aggregation, distributed
-Galerkin products, repartitioning and the direct coarse solver are checked on every explored input by predicates
+**The preconditioner** (`Properties/C12b.lean`).  The hypothesis `Setup.pd` (the distributed preconditioner refines a
+serial one) is PROVED for the solve phase of `mpi::amg` with damped Jacobi / SPAI-0 smoothing and the one-master
+coarse solver: `C12.dist_amg_cycle_eq_gathered`, `C12.mpi_amg_setup`, `C12.lockstep_cg_mpi_amg` — the distributed
+cycle is the serial cycle of the gathered hierarchy, for whatever transfer operators the setup phase produced.
+
+**What is certificate / test (harness/h_mpi_solve.cpp, real MPI, double).**  The SETUP phase of `mpi::amg` is not
+modelled: PMIS aggregation, distributed Galerkin products, repartitioning and the direct coarse solver are checked on
+every explored input by predicates
 on the gathered outputs (aggregates form a global partition; `A_c = s·R·A·P`, exactly on dyadic data; `R = Pᵀ`;
 `A x = f` for the consolidated direct solver), together with bitwise equality of `(iters, resid)` across ranks and
 the true residual of the gathered solution.  Convergence per combination is a labelled test.  The other Krylov
